@@ -70,7 +70,7 @@ class C05(Prop):
     id = "C05"
     parallel = False   # engine is timing-sensitive (real Quinn loopback / OS threads parked at hooks): one harness process at a time
     modules = ["H3.Props.C05"]
-    engines = ["cell", "cellmv", "flt5"]
+    engines = ["cell", "cellmv", "flt5", "hnd5"]
     design_ref = "DESIGN.md section 7, C05; Appendix B.2"
     level_text = ("Lean theorems over a small-step model of the connection error cell (OnceLock cell, AtomicWaker, executor "
                   "notification, driver pc/handled/close calls, n stream handles): for every number of handles, every error "
@@ -85,7 +85,12 @@ class C05(Prop):
                   "handle_connection_error(H3_STREAM_CREATION_ERROR)) is a driver step of the model (DOp.bidi) covered by all "
                   "of the above, and in every reachable state it ends the poll with the error already in the cell if there is "
                   "one, else the transport's, else 0x0103, closed exactly closeOf(winner); Drop for server::Connection "
-                  "(close(H3_NO_ERROR), unconditional) appends one call and never changes the first close call (reading R-05)")
+                  "(close(H3_NO_ERROR), unconditional) appends one call and never changes the first close call (reading R-05); "
+                  "the shutdown() check is a step of the small-step machine (DOp.shut = check_connection_error, enabled while the "
+                  "driver is not inside a poll, so every forall-schedule theorem ranges over histories with shutdown calls) that is "
+                  "Setup.checkError on every state (C05_shutdown_step_is_the_check), and the plan of the whole-connection model "
+                  "flt5 (handled alone) is the plan made from cell AND handled on every state a connection without request "
+                  "handles can reach (C05_shutdownPlan_is_the_check)")
     level_note = ("trusted: Lean kernel + 3 standard axioms; the model is tied to the code by executing every interleaving (at the "
                   "granularity of the pre-emption hooks) of driver polls with 1..3 raising handles on the real SharedState/"
                   "ConnectionInner of a real server::Connection over the in-memory transport, OS threads parked at the hooks; "
@@ -105,7 +110,19 @@ class C05(Prop):
             "is judged by H3.Spec.Faults (one outcome, reported by every later driver call incl. shutdown, close exactly for "
             "locally detected errors, once, with that code), plus (faults.drop_cases) the application dropping the driver "
             "before / between / after the calls that meet the error, every error source x both roles x grease on/off: the "
-            "first close is judged as before, the Drop's close(H3_NO_ERROR) is accepted once behind the drop (R-05); non-trivial = some error was raised and the line is not "
+            "first close is judged as before, the Drop's close(H3_NO_ERROR) is accepted once behind the drop (R-05); label D.shut "
+            "(engine cell: the real shutdown() of server::Connection / client::Connection in modes acc/clo/idl, "
+            "check_connection_error in mode pce) in every interleaving with 1..2 handles' store/wake, alone, behind a parked "
+            "poll, in front of a poll, and in the random histories; the cell oracle admits only `reported and closed` once "
+            "every driver call made behind the winner must have reported (a shutdown call, or a complete poll_connection_error "
+            "call of a poll that began behind the winner's store); engine hnd5 (tools/props/handles.py): whole connections "
+            "over SimQuic in which a REAL request handle detects the error (resolve_request / recv_response on a request "
+            "stream carrying DATA before HEADERS, SETTINGS, a frame cut by the end of the stream, a HEADERS frame QPACK "
+            "cannot decode; a pending read meeting the transport's timeout / close), merged in every order (all merges up to "
+            "60, else 60 random; thorough 400) with accept / wait_idle / shutdown / send_request and a second handle that is "
+            "healthy or poisoned with another error, judged by H3.Drv.Hnd.verdict; `cell dg`: the datagram handle of "
+            "h3-datagram on the real code (finding D-05g); flt5 histories with a token outside the oracle's alphabet are "
+            "refused (bad:unknown-token), never `ok`; non-trivial = some error was raised and the line is not "
             "bad-op/bad-flow/panic")
     trusted = ["futures_util::task::AtomicWaker and std::sync::OnceLock are linearizable with their documented semantics "
                "(register stores the waker, wake takes and wakes it, get_or_init stores at most once)",
@@ -140,7 +157,15 @@ class C05(Prop):
                    "the QUIC connection), strictly; the close(H3_NO_ERROR) that Drop for server::Connection adds when the "
                    "application drops the driver is accepted once, only behind `<task>.D=ok` (engine flt5, "
                    "faults.drop_cases); a close made by nobody but the driver is demanded only once a driver call has met the "
-                   "error"]
+                   "error",
+                   "engine hnd5: what the bytes on a request stream make the handle detect is a table over the generator's "
+                   "pool on the model side (the frame layer is C02/C03's subject; a wrong entry is a correspondence difference) "
+                   "and the RFC's rule on the oracle side (RFC 9114 4.1, 7.1, 7.2.4; RFC 9204 2.2.3); within one op's segment the "
+                   "request handles' answers are compared as a sorted list (the order in which the executor polls tasks woken "
+                   "together is not modelled), close calls and the driver's answers in their order",
+                   "the datagram handle (h3-datagram DatagramSender) counts as a handle of C05: it is a ConnectionState "
+                   "implementor bound to a request stream id, usable from any task, and writes the connection's error cell "
+                   "through set_conn_error_and_wake like every request handle; its report is judged like theirs (finding D-05g)"]
 
     # ---------------------------------------------------------------- cases
 
@@ -238,7 +263,40 @@ class C05(Prop):
                         ks = [rng.choice(KINDS) for _ in range(n)]
                         sub = {"D.det:Q": d, "D.det:B": "D.det:I259.0"}
                         L.append(self.line(mode, errs_for(ks, second=False), [sub.get(x, x) for x in il] + acc + ["D.park"]))
-        # random longer histories: several polls, detections, up to 3 handles raising up to 3 errors
+        # shutdown() (label D.shut: `check_connection_error`, the check without a waker) against the handles' raises:
+        # before / between / after a handle's store and wake, alone, behind a parked poll, in front of a poll; mode pce
+        # calls check_connection_error directly, so the label may stand anywhere the driver is idle
+        n_shut = len(L)
+        for dseq in (["D.shut", "D.shut"], POLL + ["D.shut"], ["D.shut"] + POLL, POLL + ["D.shut"] + POLL):
+            for n in (1, 2):
+                if n == 2 and len(dseq) > 5 and not big:
+                    continue
+                for il in interleavings([dseq] + [["S%d" % (k + 1)] * 2 for k in range(n)]):
+                    for k1 in (KINDS if n == 1 else [rng.choice(KINDS)]):
+                        ks = [k1] + [rng.choice(KINDS) for _ in range(n - 1)]
+                        L.append(self.line("pce", errs_for(ks), il + self.later(n) + ["D.park", "D.shut"]))
+        # ... and on the real futures: shutdown() of server::Connection / client::Connection itself, called between two
+        # polls of accept() / poll_close / wait_idle once a handle has stored its error (on an empty cell the real
+        # shutdown() would write its GOAWAY and change what the next poll does: the pce lines cover that side)
+        for mode in ("acc", "clo", "idl"):
+            for n in (1, 2):
+                for il in interleavings([acc + ["D.park", "D.shut"]] + [["S%d" % (k + 1)] * 2 for k in range(n)]):
+                    if min(il.index("S%d" % (k + 1)) for k in range(n)) > il.index("D.shut"):
+                        continue
+                    if n == 2 and not big and rng.random() < 0.8:
+                        continue
+                    ks = [rng.choice(KINDS) for _ in range(n)]
+                    L.append(self.line(mode, errs_for(ks, second=False), il + acc + ["D.park", "D.shut"]))
+                for pre in ([], ["D.shut"]):
+                    for il in interleavings([["D.shut"] + acc + ["D.park"]] + [["S%d" % (k + 1)] * 2 for k in range(n)]):
+                        if min(il.index("S%d" % (k + 1)) for k in range(n)) > il.index("D.shut"):
+                            continue
+                        if not big and rng.random() < (0.5 if n == 1 else 0.9):
+                            continue
+                        ks = [rng.choice(KINDS) for _ in range(n)]
+                        L.append(self.line(mode, errs_for(ks, second=False), il + pre + ["D.poll", "D.pce"]))
+        self.n_shut = len(L) - n_shut
+        # random longer histories: several polls, detections, shutdown calls, up to 3 handles raising up to 3 errors
         for _ in range(20000 if big else 3000):
             n = rng.randrange(1, 4)
             errs = []
@@ -251,6 +309,8 @@ class C05(Prop):
                 errs.append(es)
             d = []
             for _ in range(rng.randrange(1, 4)):
+                if rng.random() < 0.3:
+                    d.append("D.shut")
                 d.append("D.poll")
                 d += ["D.pce"] * (2 * rng.randrange(0, 3) + rng.choice([0, 0, 0, 1]))
                 r = rng.random()
@@ -259,6 +319,8 @@ class C05(Prop):
                 elif r < 0.8:
                     tag[0] += 1
                     d.append("D.det:" + mk_err(rng.choice(KINDS), rng, tag[0] % 97))
+                if rng.random() < 0.15:
+                    d.append("D.shut")
             seqs = [d] + [["S%d" % (k + 1)] * (2 * len(errs[k])) for k in range(n)]
             L.append(self.line("pce", errs, random_merge(seqs, rng)))
         # the same scenarios with the driver polled from a different task each time (every poll has
@@ -273,14 +335,25 @@ class C05(Prop):
         L += ["flt5 " + l[len("flt "):] for l in faults.cases(big, rng)]
         # ... and the application dropping the driver before / between / after the calls that meet the error (R-05)
         L += ["flt5 " + l[len("flt "):] for l in faults.drop_cases(big, rng)]
+        # whole connections in which a REAL request handle detects the connection error (a frame error / QPACK failure on
+        # its request stream, a pending read meeting the transport's error), the driver's, send_request's and the other
+        # handles' calls in every order (engine hnd5: tools/props/handles.py, lean/H3/Drv/Hnd.lean)
+        from props import handles
+        L += handles.cases(big, rng)
+        # the datagram handle of the sibling crate (h3-datagram DatagramSender, a ConnectionState implementor bound to a
+        # request stream id): the transport fails its send_datagram, with the cell empty or holding an earlier error
+        for first in ("-", "I261.1", "I512.2", "Qa256", "Qt", "Qi.2"):
+            for q in ("Qt", "Qa256", "Qa0", "Qi.3", "Qu.5"):
+                L.append("cell dg %s %s" % (first, q))
         return L
 
     def project_all(self, lines, impls):
-        from props import faults
+        from props import faults, handles
         res = list(impls)
-        idx = [i for i, l in enumerate(lines) if l.startswith("flt")]
-        for i, p in zip(idx, faults.project_all([lines[i] for i in idx], [impls[i] for i in idx])):
-            res[i] = p
+        for pre, mod in (("flt", faults), ("hnd5 ", handles)):
+            idx = [i for i, l in enumerate(lines) if l.startswith(pre)]
+            for i, p in zip(idx, mod.project_all([lines[i] for i in idx], [impls[i] for i in idx])):
+                res[i] = p
         return res
 
     # ---------------------------------------------------------------- statistics
@@ -290,6 +363,12 @@ class C05(Prop):
         if w[0].startswith("flt"):
             from props import faults
             return faults.klass(line, impl)
+        if w[0] == "hnd5":
+            from props import handles
+            return handles.klass(line, impl)
+        if w[:2] == ["cell", "dg"]:
+            t = impl.split()
+            return "dg/first=%s/q=%s/%s" % (w[2][:2], w[3][:2], "same" if len(t) > 2 and t[1][3:] == t[2][4:] else "different")
         n = sum(1 for x in w if x.startswith("S") and "=" in x)
         toks = impl.split(" | ")[0].split()
         f = dict(t.split("=", 1) for t in toks if "=" in t)
@@ -322,9 +401,19 @@ class C05(Prop):
         if line.startswith("flt"):
             from props import faults
             return faults.trivial(line, impl)
+        if line.startswith("hnd5 "):
+            from props import handles
+            return handles.trivial(line, impl)
+        if line.startswith("cell dg "):
+            return False
         return not impl.startswith("cell=") or impl.startswith("cell=- ")
 
     def shrink_candidates(self, line):
+        if line.startswith("cell dg "):
+            return []
+        if line.startswith("hnd5 "):
+            from props import handles
+            return handles.shrink_candidates(line)
         if line.startswith("flt"):
             w = line.split()
             return [" ".join(w[:3] + w[3:3 + i] + w[4 + i:]) for i in range(len(w) - 3) if len(w) > 4]
@@ -382,6 +471,74 @@ class C05(Prop):
         res += self.entry_points()
         res.append(("note", "source inventory: %d CloseStream implementors, all with the default methods; error cell and "
                     "connection waker are used only in shared_state.rs and connection_error_creators.rs" % n_impl, {}))
+        res += self.sibling_inventory()
+        return res
+
+    def sibling_inventory(self):
+        """The same questions for the sibling crates, whose handles share the connection's `SharedState`, and for the places
+        where a `ConnectionError` value is BUILT (a handle that builds one itself can report another error than the cell's).
+        Expected, and re-read on every run (anything else is `BROKEN`): h3-datagram and h3-webtransport implement
+        `ConnectionState` with `shared_state` only and `CloseStream` with the default methods; the only direct use of the
+        cell outside h3 is `DatagramSender::handle_send_datagram_error` (`set_conn_error_and_wake`, result dropped), which is
+        also the only place outside `connection_error_creators.rs` that builds a `ConnectionError` — finding D-05g, executed
+        on the real code by the `cell dg` lines."""
+        res = []
+        n_state = n_close = 0
+        direct, built = {}, {}
+        for crate in ("h3", "h3-datagram", "h3-webtransport", "h3-quinn"):
+            for d, _, fs in os.walk(os.path.join(vlib.REPO, crate, "src")):
+                if os.sep + "tests" in d:
+                    continue
+                for f in sorted(fs):
+                    if not f.endswith(".rs"):
+                        continue
+                    rel = os.path.relpath(os.path.join(d, f), vlib.REPO)
+                    code = "\n".join(ln.split("//")[0] for ln in open(os.path.join(d, f)).read().split("\n"))
+                    if crate != "h3":
+                        for m in re.finditer(r"impl\s*(<[^{]*?>)?\s*CloseStream\s+for\s+[^{]*\{([^}]*)\}", code, re.S):
+                            n_close += 1
+                            if m.group(2).strip():
+                                res.append(("broken", "sibling inventory: %s overrides a CloseStream method" % rel, {}))
+                        for m in re.finditer(r"impl\s*(<[^{]*?>)?\s*ConnectionState\s+for\s+[^{]*\{(.*?)\n\}", code, re.S):
+                            n_state += 1
+                            fns = re.findall(r"fn\s+(\w+)", m.group(2))
+                            if fns != ["shared_state"]:
+                                res.append(("broken", "sibling inventory: %s overrides ConnectionState methods %s" % (rel, fns), {}))
+                        for pat in (r"\.connection_error\b", r"waker\(\)\s*\.\s*(register|wake|take)", r"\bget_conn_error\s*\(",
+                                    r"\bset_conn_error(_and_wake)?\s*\("):
+                            n = len(re.findall(pat, code))
+                            if n:
+                                direct[(rel, pat)] = n
+                    # `ConnectionError::X` followed by `=>` / `if` / `{ error }` inside a `match` is a pattern; what is left
+                    # is counted per file and compared with the expected table
+                    n = 0
+                    for m in re.finditer(r"\bConnectionError::(Local|Remote|Timeout)\b", code):
+                        if re.search(r"\b(quinn|quic)::\s*$", code[max(0, m.start() - 8):m.start()]):
+                            continue
+                        tail = code[m.end():m.end() + 160]
+                        if re.match(r"\s*(\{[^}]*\}|\([^)]*\)(\s*\))?)?\s*(=>|if\b)", tail, re.S):
+                            continue
+                        n += 1
+                    if n:
+                        built[rel] = n
+        want_direct = {("h3-datagram/src/datagram_handler.rs", r"\bset_conn_error(_and_wake)?\s*\("): 1}
+        if direct != want_direct:
+            res.append(("broken", "sibling inventory: direct uses of the error cell / waker in the sibling crates are %s, expected "
+                        "only DatagramSender::handle_send_datagram_error (D-05g)" % sorted(direct.items()), {}))
+        want_built = {"h3/src/error/connection_error_creators.rs": 7, "h3-datagram/src/datagram_handler.rs": 1}
+        got = {k: v for k, v in built.items() if not k.endswith("error/error.rs")}
+        if got != want_built:
+            res.append(("broken", "sibling inventory: ConnectionError values are built in %s, expected %s (the common conversion, "
+                        "the two *_raw paths used before the connection exists, and the datagram sender: D-05g)"
+                        % (sorted(got.items()), sorted(want_built.items())), {}))
+        if n_state < 4 or n_close < 2:
+            res.append(("broken", "sibling inventory: found only %d ConnectionState / %d CloseStream implementors in the sibling "
+                        "crates (parser out of date?)" % (n_state, n_close), {}))
+        if not any(k == "broken" for k, _, _ in res):
+            res.append(("note", "sibling inventory: h3-datagram / h3-webtransport: %d ConnectionState implementors (shared_state only), "
+                        "%d CloseStream implementors (default methods); one direct use of the cell outside h3 and one "
+                        "ConnectionError built outside connection_error_creators.rs (7 there), both in "
+                        "DatagramSender::handle_send_datagram_error = finding D-05g (lines `cell dg`)" % (n_state, n_close), {}))
         return res
 
 
